@@ -15,8 +15,8 @@ TABLE = [
     ('LEFT.default', '=LEFT("abc")', "self._left('abc', None)", 'omitted count'),
     ('RIGHT.binding', '=RIGHT("abc",900001)', "self._right('abc', 900001)", ''),
     ('MID.binding', '=MID("abc",900001,900002)', "self._mid('abc', 900001, 900002)", ''),
-    ('AMP.order', '=900001&900002', 'str(900001) + str(900002)', 'text forms joined in order'),
-    ('AMP.chain', '=900001&900002&900003', 'str(900001) + (str(900002) + str(900003))',
+    ('AMP.order', '=900001&900002', 'self._excel_value_to_string(900001) + self._excel_value_to_string(900002)', 'text forms joined in order'),
+    ('AMP.chain', '=900001&900002&900003', 'self._excel_value_to_string(900001) + self._excel_value_to_string(self._excel_value_to_string(900002) + self._excel_value_to_string(900003))',
      'right-nested by the grammar; concatenation is associative'),
     ('CONCATENATE.order', '=CONCATENATE(900001,"x",900002)',
      "self._excel_value_to_string(900001) + self._excel_value_to_string('x') + self._excel_value_to_string(900002)", ''),
@@ -51,7 +51,9 @@ def run(ctx):
                       'implies(I(start_num) >= 1 and I(num_chars) >= 0, is_str(result) and '
                       'S(result) == substr(text, I(start_num), max(0, min(I(num_chars), slen(text) - I(start_num) + 1))))')
     K.conformance(res, 'contracts.rt', CONFORMANCE)
-    K.monitor_if_present(res, ctx, 'mon_c17')
+    K.monitor_if_present(res, ctx, 'mon_c17', drop={
+        'C17.value.python_only_number_syntax': 'VALUE("inf") / "nan" / "1_000": the statement speaks of numeric text only; what VALUE does '
+                                               'with other text has no clause'})
     res.trusted_base += ['z3 sequence theory (str.substr, str.++, str.len)', 'L-SUBST']
     res.assumptions += ['A-STR: strings are sequences of code points', 'texts are str and counts are int (the operand kinds of '
                         'the statement); SEARCH and VALUE are decided only to the monitor\'s bound']
